@@ -229,7 +229,7 @@ Inductive sink :=
 Record site := {
   s_file : string; s_fn : string; s_ctx : string; s_expr : string; s_sink : sink; s_note : string
 }.
-Definition S (f fn ctx e : string) (k : sink) (note : string) : site :=
+Definition St (f fn ctx e : string) (k : sink) (note : string) : site :=
   {| s_file := f; s_fn := fn; s_ctx := ctx; s_expr := e; s_sink := k; s_note := note |}.
 
 Definition sink_name (k : sink) : string :=
@@ -255,117 +255,117 @@ Definition order_sensitive (k : sink) : bool :=
   match k with SkRaw | SkIsort => true | _ => false end.
 
 Definition cg := "client_generators/".
-Local Arguments S : simpl never.
+Local Arguments St : simpl never.
 
 Definition site_table : list site := [
-  S "client_generators/client.py" "ClientGenerator.get_variable_names" "member" "argument_names" SkMember "";
-  S "client_generators/comments.py" "get_timestamp_comment" "ambient" "datetime.now()" SkInput
+  St "client_generators/client.py" "ClientGenerator.get_variable_names" "member" "argument_names" SkMember "";
+  St "client_generators/comments.py" "get_timestamp_comment" "ambient" "datetime.now()" SkInput
     "timestamp comment mode is excluded by the property";
-  S "client_generators/custom_fields.py" "CustomFieldsGenerator._generate_class_def_body" "construct" "set()" SkNone "";
-  S "client_generators/custom_fields.py" "CustomFieldsGenerator._generate_class_def_body" "sorted" "additional_fields_typing" SkSorted "";
-  S "client_generators/custom_fields.py" "CustomFieldsGenerator._generate_fields_method" "iter" "additional_fields_typing" SkSorted
+  St "client_generators/custom_fields.py" "CustomFieldsGenerator._generate_class_def_body" "construct" "set()" SkNone "";
+  St "client_generators/custom_fields.py" "CustomFieldsGenerator._generate_class_def_body" "sorted" "additional_fields_typing" SkSorted "";
+  St "client_generators/custom_fields.py" "CustomFieldsGenerator._generate_fields_method" "iter" "additional_fields_typing" SkSorted
     "parameter: the only caller passes sorted(additional_fields_typing)";
-  S "client_generators/custom_fields.py" "CustomFieldsGenerator._generate_fields_method" "size" "additional_fields_typing" SkMember "";
-  S "client_generators/custom_generator_utils.py" "TypeCollector.__init__" "construct" "set()" SkNone "";
-  S "client_generators/custom_generator_utils.py" "TypeCollector._collect_dependent_types" "member" "self.visited_types" SkMember "";
-  S "client_generators/custom_generator_utils.py" "TypeCollector.collect" "sorted" "self.collected_types" SkSorted "";
-  S "client_generators/fragments.py" "FragmentsGenerator.__init__" "construct" "set(self.fragments_definitions.keys())" SkNone "";
-  S "client_generators/fragments.py" "FragmentsGenerator._get_sorted_fragments_names" "construct" "set()" SkNone "";
-  S "client_generators/fragments.py" "FragmentsGenerator._get_sorted_fragments_names" "sorted" "fragments_names" SkSorted "";
-  S "client_generators/fragments.py" "FragmentsGenerator._get_sorted_fragments_names.visit" "iter" "dependencies_dict[name]" SkRaw
+  St "client_generators/custom_fields.py" "CustomFieldsGenerator._generate_fields_method" "size" "additional_fields_typing" SkMember "";
+  St "client_generators/custom_generator_utils.py" "TypeCollector.__init__" "construct" "set()" SkNone "";
+  St "client_generators/custom_generator_utils.py" "TypeCollector._collect_dependent_types" "member" "self.visited_types" SkMember "";
+  St "client_generators/custom_generator_utils.py" "TypeCollector.collect" "sorted" "self.collected_types" SkSorted "";
+  St "client_generators/fragments.py" "FragmentsGenerator.__init__" "construct" "set(self.fragments_definitions.keys())" SkNone "";
+  St "client_generators/fragments.py" "FragmentsGenerator._get_sorted_fragments_names" "construct" "set()" SkNone "";
+  St "client_generators/fragments.py" "FragmentsGenerator._get_sorted_fragments_names" "sorted" "fragments_names" SkSorted "";
+  St "client_generators/fragments.py" "FragmentsGenerator._get_sorted_fragments_names.visit" "iter" "dependencies_dict[name]" SkRaw
     "F12: class order of fragments.py follows the iteration order of a set (frag_module_order false)";
-  S "client_generators/fragments.py" "FragmentsGenerator._get_sorted_fragments_names.visit" "sorted" "dependencies_dict[name]" SkSorted
+  St "client_generators/fragments.py" "FragmentsGenerator._get_sorted_fragments_names.visit" "sorted" "dependencies_dict[name]" SkSorted
     "the proposed fix (frag_module_order true)";
-  S "client_generators/fragments.py" "FragmentsGenerator._get_sorted_fragments_names.visit" "member" "visited" SkMember "";
-  S "client_generators/fragments.py" "FragmentsGenerator.generate" "construct" "set()" SkNone "";
-  S "client_generators/fragments.py" "FragmentsGenerator.generate" "member" "self._fragments_names" SkMember "";
-  S "client_generators/fragments.py" "FragmentsGenerator.generate" "sorted" "dependencies_dict[name]" SkSorted "";
-  S "client_generators/fragments.py" "FragmentsGenerator.generate" "sorted" "self._fragments_names" SkSorted "";
-  S "client_generators/input_types.py" "InputTypesGenerator._filter_class_defs" "construct" "set()" SkNone "";
-  S "client_generators/input_types.py" "InputTypesGenerator._filter_class_defs" "member" "types_names" SkMember "";
-  S "client_generators/input_types.py" "InputTypesGenerator._get_dependencies_of_type" "construct" "set()" SkNone "";
-  S "client_generators/input_types.py" "InputTypesGenerator._get_dependencies_of_type.dfs" "member" "visited" SkMember "";
-  S "client_generators/package.py" "PackageGenerator.__init__" "construct" "set()" SkNone "";
-  S "client_generators/package.py" "PackageGenerator._generate_fragments" "construct" "set(self.fragments_definitions.keys())" SkNone "";
-  S "client_generators/package.py" "PackageGenerator._generate_fragments" "size"
+  St "client_generators/fragments.py" "FragmentsGenerator._get_sorted_fragments_names.visit" "member" "visited" SkMember "";
+  St "client_generators/fragments.py" "FragmentsGenerator.generate" "construct" "set()" SkNone "";
+  St "client_generators/fragments.py" "FragmentsGenerator.generate" "member" "self._fragments_names" SkMember "";
+  St "client_generators/fragments.py" "FragmentsGenerator.generate" "sorted" "dependencies_dict[name]" SkSorted "";
+  St "client_generators/fragments.py" "FragmentsGenerator.generate" "sorted" "self._fragments_names" SkSorted "";
+  St "client_generators/input_types.py" "InputTypesGenerator._filter_class_defs" "construct" "set()" SkNone "";
+  St "client_generators/input_types.py" "InputTypesGenerator._filter_class_defs" "member" "types_names" SkMember "";
+  St "client_generators/input_types.py" "InputTypesGenerator._get_dependencies_of_type" "construct" "set()" SkNone "";
+  St "client_generators/input_types.py" "InputTypesGenerator._get_dependencies_of_type.dfs" "member" "visited" SkMember "";
+  St "client_generators/package.py" "PackageGenerator.__init__" "construct" "set()" SkNone "";
+  St "client_generators/package.py" "PackageGenerator._generate_fragments" "construct" "set(self.fragments_definitions.keys())" SkNone "";
+  St "client_generators/package.py" "PackageGenerator._generate_fragments" "size"
     "set(self.fragments_definitions.keys()).difference(exclude_names)" SkMember "";
-  S "client_generators/package.py" "PackageGenerator._validate_unique_file_names" "construct" "set()" SkNone "";
-  S "client_generators/package.py" "PackageGenerator._validate_unique_file_names" "construct" "set(file_names)" SkNone "";
-  S "client_generators/package.py" "PackageGenerator._validate_unique_file_names" "construct"
+  St "client_generators/package.py" "PackageGenerator._validate_unique_file_names" "construct" "set()" SkNone "";
+  St "client_generators/package.py" "PackageGenerator._validate_unique_file_names" "construct" "set(file_names)" SkNone "";
+  St "client_generators/package.py" "PackageGenerator._validate_unique_file_names" "construct"
     "{n for n in file_names if n in seen or seen.add(n)}" SkNone "";
-  S "client_generators/package.py" "PackageGenerator._validate_unique_file_names" "iter:join" "duplicated_files" SkErrorText
+  St "client_generators/package.py" "PackageGenerator._validate_unique_file_names" "iter:join" "duplicated_files" SkErrorText
     "ParsingError message lists duplicated file names in set order; raised before anything is written";
-  S "client_generators/package.py" "PackageGenerator._validate_unique_file_names" "member" "seen" SkMember "";
-  S "client_generators/package.py" "PackageGenerator._validate_unique_file_names" "size" "set(file_names)" SkMember "";
-  S "client_generators/result_fields.py" "parse_interface_type" "construct"
+  St "client_generators/package.py" "PackageGenerator._validate_unique_file_names" "member" "seen" SkMember "";
+  St "client_generators/package.py" "PackageGenerator._validate_unique_file_names" "size" "set(file_names)" SkMember "";
+  St "client_generators/result_fields.py" "parse_interface_type" "construct"
     "{f.type_condition.name.value for f in inline_fragments + fragments_on_subtypes}" SkNone "";
-  S "client_generators/result_fields.py" "parse_interface_type" "sorted"
+  St "client_generators/result_fields.py" "parse_interface_type" "sorted"
     "{f.type_condition.name.value for f in inline_fragments + fragments_on_subtypes}" SkSorted "";
-  S "client_generators/result_types.py" "ResultTypesGenerator.__init__" "construct" "set()" SkNone "";
-  S "client_generators/result_types.py" "ResultTypesGenerator._add_enums_scalars_fragments_imports" "iter"
+  St "client_generators/result_types.py" "ResultTypesGenerator.__init__" "construct" "set()" SkNone "";
+  St "client_generators/result_types.py" "ResultTypesGenerator._add_enums_scalars_fragments_imports" "iter"
     "self._fragments_used_as_mixins" SkIsort
     "names of `from .fragments import ...` in an operation module: isort orders them by a case-insensitive key, ties keep set order (op_import_names false)";
-  S "client_generators/result_types.py" "ResultTypesGenerator._add_enums_scalars_fragments_imports" "sorted"
+  St "client_generators/result_types.py" "ResultTypesGenerator._add_enums_scalars_fragments_imports" "sorted"
     "self._fragments_used_as_mixins" SkSorted "the proposed fix (op_import_names true)";
-  S "client_generators/result_types.py" "ResultTypesGenerator._add_enums_scalars_fragments_imports" "size"
+  St "client_generators/result_types.py" "ResultTypesGenerator._add_enums_scalars_fragments_imports" "size"
     "isinstance(self.operation_definition, OperationDefinitionNode) and self._fragments_used_as_mixins and self.fragments_module_name" SkMember "";
-  S "client_generators/result_types.py" "ResultTypesGenerator._add_enums_scalars_fragments_imports" "size"
+  St "client_generators/result_types.py" "ResultTypesGenerator._add_enums_scalars_fragments_imports" "size"
     "self._fragments_used_as_mixins" SkMember "";
-  S "client_generators/result_types.py" "ResultTypesGenerator._add_typename_field_to_selections" "construct"
+  St "client_generators/result_types.py" "ResultTypesGenerator._add_typename_field_to_selections" "construct"
     "{f.name.value for f in resolved_fields}" SkNone "";
-  S "client_generators/result_types.py" "ResultTypesGenerator._add_typename_field_to_selections" "member" "field_names" SkMember "";
-  S "client_generators/result_types.py" "ResultTypesGenerator._get_all_related_fragments" "iter" "self._fragments_used_as_mixins" SkMember
+  St "client_generators/result_types.py" "ResultTypesGenerator._add_typename_field_to_selections" "member" "field_names" SkMember "";
+  St "client_generators/result_types.py" "ResultTypesGenerator._get_all_related_fragments" "iter" "self._fragments_used_as_mixins" SkMember
     "the loop only unions into another set, consumed by sorted() in get_operation_as_str";
-  S "client_generators/result_types.py" "ResultTypesGenerator._get_fragments_names" "construct" "set()" SkNone "";
-  S "client_generators/result_types.py" "ResultTypesGenerator._get_inline_fragment_root_type" "construct"
+  St "client_generators/result_types.py" "ResultTypesGenerator._get_fragments_names" "construct" "set()" SkNone "";
+  St "client_generators/result_types.py" "ResultTypesGenerator._get_inline_fragment_root_type" "construct"
     "{interface.name for interface in type_.interfaces}" SkNone "";
-  S "client_generators/result_types.py" "ResultTypesGenerator._get_inline_fragment_root_type" "member"
+  St "client_generators/result_types.py" "ResultTypesGenerator._get_inline_fragment_root_type" "member"
     "{interface.name for interface in type_.interfaces}" SkMember "";
-  S "client_generators/result_types.py" "ResultTypesGenerator._get_typename_values" "construct" "set(possible_types_names)" SkNone "";
-  S "client_generators/result_types.py" "ResultTypesGenerator._get_typename_values" "construct" "set(types_names)" SkNone "";
-  S "client_generators/result_types.py" "ResultTypesGenerator._get_typename_values" "iter:list"
+  St "client_generators/result_types.py" "ResultTypesGenerator._get_typename_values" "construct" "set(possible_types_names)" SkNone "";
+  St "client_generators/result_types.py" "ResultTypesGenerator._get_typename_values" "construct" "set(types_names)" SkNone "";
+  St "client_generators/result_types.py" "ResultTypesGenerator._get_typename_values" "iter:list"
     "set(possible_types_names) - set(types_names)" SkSorted
     "the list only reaches generate_typename_annotation, which sorts it (typename_literal)";
-  S "client_generators/result_types.py" "ResultTypesGenerator._parse_type_definition" "size" "fragments" SkMember "";
-  S "client_generators/result_types.py" "ResultTypesGenerator._parse_type_definition" "sorted" "fragments" SkSorted "class_bases";
-  S "client_generators/result_types.py" "ResultTypesGenerator._resolve_selection_set" "construct" "set()" SkNone "";
-  S "client_generators/result_types.py" "ResultTypesGenerator._resolve_selection_set" "construct" "set(fragments)" SkNone "";
-  S "client_generators/result_types.py" "ResultTypesGenerator.get_operation_as_str" "size" "self._fragments_used_as_mixins" SkMember "";
-  S "client_generators/result_types.py" "ResultTypesGenerator.get_operation_as_str" "size"
+  St "client_generators/result_types.py" "ResultTypesGenerator._parse_type_definition" "size" "fragments" SkMember "";
+  St "client_generators/result_types.py" "ResultTypesGenerator._parse_type_definition" "sorted" "fragments" SkSorted "class_bases";
+  St "client_generators/result_types.py" "ResultTypesGenerator._resolve_selection_set" "construct" "set()" SkNone "";
+  St "client_generators/result_types.py" "ResultTypesGenerator._resolve_selection_set" "construct" "set(fragments)" SkNone "";
+  St "client_generators/result_types.py" "ResultTypesGenerator.get_operation_as_str" "size" "self._fragments_used_as_mixins" SkMember "";
+  St "client_generators/result_types.py" "ResultTypesGenerator.get_operation_as_str" "size"
     "self._fragments_used_as_mixins or self._unpacked_fragments" SkMember "";
-  S "client_generators/result_types.py" "ResultTypesGenerator.get_operation_as_str" "size" "self._unpacked_fragments" SkMember "";
-  S "client_generators/result_types.py" "ResultTypesGenerator.get_operation_as_str" "sorted" "self._get_all_related_fragments()" SkSorted
+  St "client_generators/result_types.py" "ResultTypesGenerator.get_operation_as_str" "size" "self._unpacked_fragments" SkMember "";
+  St "client_generators/result_types.py" "ResultTypesGenerator.get_operation_as_str" "sorted" "self._get_all_related_fragments()" SkSorted
     "related_fragments";
-  S "config.py" "get_client_settings" "construct" "{f.name for f in fields(ClientSettings)}" SkNone "";
-  S "config.py" "get_client_settings" "iter:join" "missing_fields" SkErrorText
+  St "config.py" "get_client_settings" "construct" "{f.name for f in fields(ClientSettings)}" SkNone "";
+  St "config.py" "get_client_settings" "iter:join" "missing_fields" SkErrorText
     "missing_fields is a list comprehension (the scan infers by name); exception text only";
-  S "config.py" "get_client_settings" "member" "settings_fields_names" SkMember "";
-  S "config.py" "get_config_file_path" "ambient" "Path.cwd()" SkInput "where pyproject.toml is looked up";
-  S "config.py" "get_graphql_schema_settings" "construct" "{f.name for f in fields(GraphQLSchemaSettings)}" SkNone "";
-  S "config.py" "get_graphql_schema_settings" "iter:join" "missing_fields" SkErrorText "as in get_client_settings";
-  S "config.py" "get_graphql_schema_settings" "member" "settings_fields_names" SkMember "";
-  S "contrib/client_forward_refs.py" "ClientForwardRefsPlugin.__init__" "construct" "set()" SkNone "";
-  S "contrib/client_forward_refs.py" "ClientForwardRefsPlugin._add_forward_ref_imports" "iter" "self.input_and_return_types" SkIsort
+  St "config.py" "get_client_settings" "member" "settings_fields_names" SkMember "";
+  St "config.py" "get_config_file_path" "ambient" "Path.cwd()" SkInput "where pyproject.toml is looked up";
+  St "config.py" "get_graphql_schema_settings" "construct" "{f.name for f in fields(GraphQLSchemaSettings)}" SkNone "";
+  St "config.py" "get_graphql_schema_settings" "iter:join" "missing_fields" SkErrorText "as in get_client_settings";
+  St "config.py" "get_graphql_schema_settings" "member" "settings_fields_names" SkMember "";
+  St "contrib/client_forward_refs.py" "ClientForwardRefsPlugin.__init__" "construct" "set()" SkNone "";
+  St "contrib/client_forward_refs.py" "ClientForwardRefsPlugin._add_forward_ref_imports" "iter" "self.input_and_return_types" SkIsort
     "names and statements of the `if TYPE_CHECKING:` imports; isort re-sorts the indented block";
-  S "contrib/client_forward_refs.py" "ClientForwardRefsPlugin._update_existing_imports" "member" "return_types_not_used_as_input" SkMember "";
-  S "contrib/client_forward_refs.py" "ClientForwardRefsPlugin._update_imports" "arg" "return_types_not_used_as_input" SkMember
+  St "contrib/client_forward_refs.py" "ClientForwardRefsPlugin._update_existing_imports" "member" "return_types_not_used_as_input" SkMember "";
+  St "contrib/client_forward_refs.py" "ClientForwardRefsPlugin._update_imports" "arg" "return_types_not_used_as_input" SkMember
     "flows into _update_existing_imports, which only tests membership";
-  S "contrib/client_forward_refs.py" "ClientForwardRefsPlugin._update_imports" "construct" "set(self.input_and_return_types)" SkNone "";
-  S "contrib/client_forward_refs.py" "ClientForwardRefsPlugin._update_imports" "size" "return_types_not_used_as_input" SkMember "";
-  S "contrib/shorter_results.py" "ShorterResultsPlugin._update_imports" "construct" "set()" SkNone "";
-  S "contrib/shorter_results.py" "ShorterResultsPlugin.generate_client_module" "iter" "self.extended_imports[stmt.module]" SkIsort
+  St "contrib/client_forward_refs.py" "ClientForwardRefsPlugin._update_imports" "construct" "set(self.input_and_return_types)" SkNone "";
+  St "contrib/client_forward_refs.py" "ClientForwardRefsPlugin._update_imports" "size" "return_types_not_used_as_input" SkMember "";
+  St "contrib/shorter_results.py" "ShorterResultsPlugin._update_imports" "construct" "set()" SkNone "";
+  St "contrib/shorter_results.py" "ShorterResultsPlugin.generate_client_module" "iter" "self.extended_imports[stmt.module]" SkIsort
     "extra names appended to an existing from-import of the client module";
-  S "contrib/shorter_results.py" "ShorterResultsPlugin.generate_client_module" "iter:list" "alias" SkIsort
+  St "contrib/shorter_results.py" "ShorterResultsPlugin.generate_client_module" "iter:list" "alias" SkIsort
     "names of a new from-import of the client module";
-  S "schema.py" "add_mixin_directive_to_schema" "construct" "{d.name for d in schema.directives}" SkNone "";
-  S "schema.py" "add_mixin_directive_to_schema" "member" "{d.name for d in schema.directives}" SkMember "";
-  S "schema.py" "walk_graphql_files" "listing" "path.glob('**/*')" SkSorted
+  St "schema.py" "add_mixin_directive_to_schema" "construct" "{d.name for d in schema.directives}" SkNone "";
+  St "schema.py" "add_mixin_directive_to_schema" "member" "{d.name for d in schema.directives}" SkMember "";
+  St "schema.py" "walk_graphql_files" "listing" "path.glob('**/*')" SkSorted
     "the only caller sorts the paths (load_dir)";
-  S "settings.py" "ClientSettings" "ambient" "Path.cwd()" SkInput "default target_package_path";
-  S "utils.py" "process_name" "construct" "set(name)" SkNone "";
-  S "utils.py" "process_name" "construct" "{'_'}" SkNone "";
-  S "utils.py" "process_name" "eq" "set(name)" SkMember "";
-  S "utils.py" "process_name" "eq" "{'_'}" SkMember ""
+  St "settings.py" "ClientSettings" "ambient" "Path.cwd()" SkInput "default target_package_path";
+  St "utils.py" "process_name" "construct" "set(name)" SkNone "";
+  St "utils.py" "process_name" "construct" "{'_'}" SkNone "";
+  St "utils.py" "process_name" "eq" "set(name)" SkMember "";
+  St "utils.py" "process_name" "eq" "{'_'}" SkMember ""
 ].
 
 (* ------------------------------------------------------------------ sexp interface *)
